@@ -335,6 +335,63 @@ def stage_b_locations(run):
     return len(terms), len(bad)
 
 
+def stage_b_macros(run):
+    """every wire macro of the two enum property templates (transform, transform_multipart, transform_header), rendered by the real
+    Jinja environment and EXECUTED on each member (str and int enums, required and optional, value present / UNSET): the Enum kind
+    (on a member of the class rendered from str_enum / int_enum.py.jinja) and the Literal kind (on the plain value) must produce
+    the same output (FrameCodec.literal_enum_same_macros says the same macros exist; this compares what they compute)."""
+    from openapi_python_client import Project
+    from openapi_python_client.parser import GeneratorData
+    from openapi_python_client.parser.properties import property_from_data, Schemas
+    from openapi_python_client import schema as oai
+    import typing
+    n = 0
+    class Unset:      # stand-in for the generated types.Unset
+        def __bool__(self):
+            return False
+    UNSET = Unset()
+    with contextlib.redirect_stdout(io.StringIO()):
+        data = GeneratorData.from_dict(impl.base_doc(), config=new_config())
+    env = Project(openapi=data, config=new_config()).env
+    mods = {False: env.get_template("property_templates/enum_property.py.jinja").module, True: env.get_template("property_templates/literal_enum_property.py.jinja").module}
+    for sch in ({"type": "string", "enum": ["a", "b c", "1"]}, {"type": "integer", "enum": [1, 30, -2]}):
+        for required in (True, False):
+            props = {}
+            for lit in (False, True):
+                props[lit], _ = property_from_data(name="p", required=required, data=oai.Schema(**sch), schemas=Schemas(), parent_name="Parent", config=new_config({"literal_enums": lit}))
+            ns0 = {}
+            tname = "int_enum.py.jinja" if sch["type"] == "integer" else "str_enum.py.jinja"
+            exec(env.get_template(tname).render(enum=props[False]), ns0)
+            cls = ns0[str(props[False].class_info.name)]
+            for val in list(sch["enum"]) + ([UNSET] if not required else []):
+                for macro in ("transform", "transform_multipart", "transform_header"):
+                    outs = {}
+                    for lit in (False, True):
+                        v = val if (lit or val is UNSET) else cls(val)
+                        try:
+                            if macro == "transform_header":
+                                if val is UNSET:
+                                    continue
+                                code = "out = " + str(getattr(mods[lit], macro)("v")).strip()
+                            else:
+                                code = str(getattr(mods[lit], macro)(props[lit], "v", "out"))
+                            ns = {"v": v, "UNSET": UNSET, "Unset": Unset, "Union": typing.Union, "Literal": typing.Literal, "cast": typing.cast, str(props[False].class_info.name): cls if not lit else typing.Any}
+                            exec(compile(code.strip() + "\n", "<macro>", "exec"), ns)
+                            o = ns["out"]
+                            outs[lit] = ("UNSET",) if o is UNSET else (type(o).__name__ if not isinstance(o, cls) else type(val).__name__, o.value if isinstance(o, cls) else o)
+                        except Exception as e:  # noqa
+                            outs[lit] = ("raised", type(e).__name__, str(e)[:80])
+                    if not outs:
+                        continue
+                    n += 1
+                    case = {"fn": "enum wire macro", "macro": macro, "schema": sch, "required": required, "value": "UNSET" if val is UNSET else val}
+                    run.note_case(case, nontrivial=True, kind="B:enum_macros")
+                    if outs.get(False) != outs.get(True) or outs.get(False, ("raised",))[0] == "raised":
+                        run.violation("oracle", {**case, "Enum": repr(outs.get(False)), "Literal": repr(outs.get(True)),
+                                                 "note": "a wire macro computes different outputs for the Enum and the Literal representation of the same enum value (literal_enums changes behaviour)"})
+    return n
+
+
 # ====================================================================================================== documents for stage C
 REF = G.REF
 
@@ -431,7 +488,18 @@ def enum_everywhere_doc():
     paths["/body/map"] = {"post": {"operationId": "enum_map_body", "tags": ["bodies"], "requestBody": Bd({"$ref": REF + "EMap"}), "responses": {"200": J({"$ref": REF + "EMapL"})}}}
     paths["/body/form"] = {"post": {"operationId": "enum_form_body", "tags": ["bodies"], "requestBody": Bd({"$ref": REF + "EForm"}, "application/x-www-form-urlencoded"),
                                     "responses": {"200": J({"$ref": REF + "EForm"})}}}
+    # enums as direct fields, array items and union members of a MULTIPART body model (to_multipart uses transform_multipart)
+    Sx["EMulti"] = G.obj({"color": C, "ocolor": C, "level": L, "olevel": L, "inl": {"type": "string", "enum": ["x", "y z"]}, "inli": {"type": "integer", "enum": [5, 6]},
+                          "oinli": {"type": "integer", "enum": [7, 8]}, "arr": G.arr(C), "arrl": G.arr(L), "u": G.any_of(L, {"type": "string"}), "uc": G.any_of(C, {"type": "integer"}),
+                          "note": {"type": "string"}}, required=["color", "level", "inli"])
+    paths["/body/multipart"] = {"post": {"operationId": "enum_multipart_body", "tags": ["bodies"], "requestBody": Bd({"$ref": REF + "EMulti"}, "multipart/form-data"), "responses": {"200": J(C)}}}
     return {"openapi": "3.1.0", "info": {"title": "Enum Api", "version": "3.0"}, "paths": paths, "components": {"schemas": Sx}}
+
+
+# instances that exercise every field (used in addition to the random ones): model name -> JSON
+FULL_INSTANCES = {"EMulti": [{"color": "dark blue", "ocolor": "red", "level": 30, "olevel": 2, "inl": "y z", "inli": 6, "oinli": 7, "arr": ["red", "green"], "arrl": [1, 30],
+                              "u": 2, "uc": "green", "note": "n"},
+                             {"color": "red", "level": 1, "inli": 5, "u": "text", "uc": 4}]}
 
 
 DESC_TEXTS = ["C:\\users\\svc\\uploads", "\\\\nas\\share\\dir", "unicode name \\N{not a name", "ends with a backslash\\", "it's \"quoted\" text",
@@ -643,6 +711,7 @@ def wire_plan(tree, instances):
         done.add(key)
         kw = {}
         okp = True
+        multi_extra = []
         for plist in (e.path_parameters, e.query_parameters, e.header_parameters, e.cookie_parameters):
             for p in plist:
                 v = param_value(p)
@@ -665,6 +734,14 @@ def wire_plan(tree, instances):
                     kw["body"] = {"@model": [str(b.prop.class_info.name), absprop.to_runner_json(inst)]}
             elif bt == "json" and pn != "ModelProperty" and param_value(b.prop) is not None:
                 kw["body"] = param_value(b.prop)
+            elif bt == "files" and pn == "ModelProperty":
+                mi = next((i for i, m in enumerate(models) if m.class_info.name == b.prop.class_info.name), None)
+                inst = (instances.get(mi) or [None])[0] if mi is not None else None
+                if inst is None:
+                    okp = False
+                else:
+                    kw["body"] = {"@model": [str(b.prop.class_info.name), absprop.to_runner_json(inst)]}
+                    multi_extra = [x for x in (instances.get(mi) or [])[1:3]]
             elif bt == "content":
                 kw["body"] = {"@file": "00ff10"}
             else:
@@ -699,6 +776,9 @@ def wire_plan(tree, instances):
         mod = "api.%s.%s" % (tag, PythonIdentifier(e.name, tree.config.field_prefix))
         ops.append({"op": "call", "module": mod, "variant": "sync_detailed", "kwargs": kw, "response": rsp})
         keys.append(("call", e.method, e.path, body_ct))
+        for xi, x in enumerate(multi_extra):      # further instances through the multipart encoder
+            ops.append({"op": "call", "module": mod, "variant": "sync_detailed", "kwargs": {**kw, "body": {"@model": [kw["body"]["@model"][0], absprop.to_runner_json(x)]}}, "response": rsp})
+            keys.append(("call", e.method, e.path + "#%d" % (xi + 1), body_ct))
     return ops, keys
 
 
@@ -808,12 +888,27 @@ def has_int_enum(ab, kind, seen):
     return False
 
 
+def fix_boundary(r):
+    """multipart requests: replace httpx's random boundary by a fixed token in the Content-Type header and the body, so that the
+    parts (names, per-part headers, bytes, order) of two clients can be compared"""
+    for rq in (r.get("requests") or []) if isinstance(r, dict) else []:
+        for h in rq.get("headers", []):
+            m = re.match(r"multipart/form-data; boundary=(\S+)$", h[1]) if h[0].lower() == "content-type" else None
+            if m:
+                b = m.group(1).encode()
+                body = bytes.fromhex(rq.get("content_hex", "")).replace(b, b"BOUNDARY")
+                rq["content_hex"] = body.hex()
+                rq["multipart_text"] = body.decode("utf-8", "replace")[:4000]
+                h[1] = "multipart/form-data; boundary=BOUNDARY"
+    return r
+
+
 def run_wire(tree, instances):
     ops, keys = wire_plan(tree, instances)
     res = impl.run_client(tree.pkg_dir(), ops, timeout=300)
     if isinstance(res, dict):
         return keys, {"fatal": res.get("fatal", "")[-600:]}
-    return keys, res
+    return keys, [fix_boundary(r) for r in res]
 
 
 def make_instances(tree, seed, per=2):
@@ -825,6 +920,7 @@ def make_instances(tree, seed, per=2):
             out[mi] = [inst.model_instance(str(m.class_info.name), 0, canonical=True) for _ in range(per)]
         except Exception:
             out[mi] = []
+        out[mi] = [copy.deepcopy(x) for x in FULL_INSTANCES.get(str(m.class_info.name), [])] + out[mi]
     return out
 
 
@@ -1431,6 +1527,8 @@ def run(run, tier, replay=None):
     bad = run_cases(HDR, terms[:off], shard=250) + [off + i for i in fbad]
     print("phase corr %.1fs" % (time.time() - t0))
     nloc, badloc = stage_b_locations(run) if not replay else (0, 0)
+    if not replay:
+        run.extra["enum_macro_output_cases"] = stage_b_macros(run)
     run.corr = {"cases": len(terms) + nloc, "mismatches": len(bad) + badloc,
                 "what": "Class.from_string(overrides, field_prefix) == Frame.class_from_string; prefix sensitivity of PythonIdentifier/ClassName == needs_prefix/class_needs_prefix; "
                         "utils.get_content_type / _source_by_content_type / body_from_data == get_content_type / source_of / body_of; endpoint_collections_by_tag == collect; "
